@@ -26,6 +26,7 @@ let dump_tok = function
   | TWs s -> "Ws," ^ hex s | TLineCom s -> "LCom," ^ hex s | TBlockCom (d, b) -> Printf.sprintf "BCom,%d,%s" (nat_to_int d) (hex b)
   | TShebang s -> "Shebang," ^ hex s
 (* last CASE, kept for the FM / NF lines that follow it *)
+let cur_words = ref []
 let cur_id = ref "" and cur_syn = ref "" and cur_src = ref [] and cur_out = ref [] and cur_ok = ref false
 
 let lexed = Hashtbl.create 4
@@ -52,6 +53,7 @@ let quote_rule words (ts : tok list) id =
 let handle_case id syn words range src status rest =
   incr cases; cur_id := id; cur_syn := syn; cur_src := unhex src; Hashtbl.reset lexed; cur_ok := false;
   let wl = SS.split_on_char ';' words in
+  cur_words := wl;
   match status, rest with
   | "ok", out :: reparse :: idem :: _ ->
     cur_out := unhex out; cur_ok := true;
@@ -127,6 +129,49 @@ let handle_nf id tag body =
       | Some a -> if nf_norm !cur_syn a <> nf_norm !cur_syn body then report "normal-form-changed" id; nf_src := None
       | None -> ()
 
+(* C11: call forms and the blank after function names, observed on full_moon's ASTs of input and output, judged by
+   CallForm.call_form / form_ok / space_call / space_definition (extracted) *)
+let calls_seen = ref 0 and calls_exempt = ref 0 and defs_seen = ref 0
+let cl_src = ref None
+let handle_cl id tag body =
+  if mode = "c11" && id = !cur_id && !cur_ok then
+    if tag = "src" then cl_src := Some body
+    else match !cl_src with
+      | None -> ()
+      | Some a ->
+        cl_src := None;
+        let items s = if s = "-" then [] else SS.split_on_char ',' s in
+        let ia = items a and ib = items body in
+        if a = "ERROR" || body = "ERROR" then ()
+        else if L.length ia <> L.length ib then report "call-sequence-changed" id
+        else begin
+          let m = (match cfgval !cur_words "call_parentheses" "Always" with
+                   | "Always" -> CallForm.Always | "NoSingleString" -> CallForm.NoSingleString | "NoSingleTable" -> CallForm.NoSingleTable
+                   | "None" -> CallForm.NoneM | _ -> CallForm.Input) in
+          let sm = (match cfgval !cur_words "space_after_function_names" "Never" with
+                    | "Never" -> CallForm.SNever | "Definitions" -> CallForm.SDefinitions | "Calls" -> CallForm.SCalls | _ -> CallForm.SAlways) in
+          let form c = (match c with 'P' -> CallForm.FParen | 'S' -> CallForm.FStr | _ -> CallForm.FTbl) in
+          let kind c = (match c with 'S' | 'K' -> CallForm.KStr | 'T' | 'U' -> CallForm.KTbl | _ -> CallForm.KOther) in
+          let gap_ok want g = (g = '3' || g = (if want then '1' else '0')) in
+          L.iter2 (fun x y ->
+            if SS.length x < 3 || SS.length y < 3 || SS.get x 0 <> SS.get y 0 then report "call-sequence-changed" id
+            else if SS.get x 0 = 'D' then begin
+              incr defs_seen;
+              if SS.get y 1 = '0' && not (gap_ok (CallForm.space_definition sm) (SS.get y 2)) then report "space-after-definition-name" id
+            end else begin
+              incr calls_seen;
+              let fi = form (SS.get x 1) and ki = kind (SS.get x 2) and ob = (SS.get x 3 = '1') and com = (SS.get x 4 = '1') in
+              let fo = form (SS.get y 1) and ko = kind (SS.get y 2) in
+              if com || SS.get y 4 = '1' then incr calls_exempt     (* a comment on the parentheses keeps them: outside the rule *)
+              else begin
+                if (SS.get y 3 = '1') <> ob then report "call-sequence-changed" id
+                else if CallForm.call_form m fi ki ob <> fo then report "call-form-differs-from-model" id
+                else if not (CallForm.form_ok m fo ko ob) then report "call-form-breaks-the-rule" id;
+                if fo = CallForm.FParen && not (gap_ok (CallForm.space_call sm) (SS.get y 5)) then report "space-after-call-name" id
+              end
+            end) ia ib
+        end
+
 (* Tie of Trivia.v: every traced call of load_token_trivia is replayed through the model *)
 let trace_calls = ref 0 and trace_comments = ref 0
 let triv_of (w : string) : tok option =
@@ -163,6 +208,7 @@ let handle line =
   | ["FM"; id; tag; toks] -> handle_fm id tag toks
   | ["FM"; id; tag] -> handle_fm id tag ""
   | ["NF"; id; tag; body] -> handle_nf id tag body
+  | ["CL"; id; tag; body] -> handle_cl id tag body
   | "NF" :: _ -> ()
   | "STATS" :: _ -> print_endline line
   | [] -> ()
@@ -170,5 +216,5 @@ let handle line =
 
 let () =
   iter_lines handle;
-  Printf.printf "SUMMARY cases=%d nontrivial=%d outside_model=%d token_lists_compared=%d trivia_calls_replayed=%d comments_in_replayed_calls=%d bad=%d %s\n" !cases !nontrivial !outside !tokens_cmp !trace_calls !trace_comments !bad
+  Printf.printf "SUMMARY cases=%d nontrivial=%d outside_model=%d token_lists_compared=%d trivia_calls_replayed=%d comments_in_replayed_calls=%d calls_judged=%d calls_exempt_for_comments=%d definitions_judged=%d bad=%d %s\n" !cases !nontrivial !outside !tokens_cmp !trace_calls !trace_comments !calls_seen !calls_exempt !defs_seen !bad
     (SS.concat " " (Hashtbl.fold (fun k v acc -> (k ^ "=" ^ string_of_int v) :: acc) kinds []))
